@@ -154,6 +154,24 @@ def run(tier):
     pfm = F.fn(SC + "::parse_from_cow_and_metadata")
     pf64 = F.fn("saphyr::loader::parse_f64")
 
+    # 'an untagged plain scalar resolves to null / bool / int / float exactly when its text has that form': the text is handed back as a string
+    # only after every number reading has been tried - each construction of Scalar::String in the untagged resolver is dominated by the decimal
+    # integer attempt (str::parse) and by the float attempt (parse_f64).  A short-cut to String (by length, by first character, ...) placed
+    # before them turns a number of that shape into text.
+    _D = pfc.dominators()
+    _str = [bi for bi, b in enumerate(pfc.blocks) if not b["cleanup"] for s_ in b["stmts"]
+            if s_["k"] == "assign" and (s_.get("rv") or {}).get("k") == "agg" and (s_["rv"].get("agg") == "adt")
+            and str(s_["rv"].get("adt", "")).endswith("scalar::Scalar") and s_["rv"].get("variant") == "String"]
+    _f64 = [bb for bb, t, ck, fr in pfc.calls() if ck == pf64.key]
+    _int = [bb for bb, t, ck, fr in pfc.calls() if ck == "str::parse"]
+    for bi in _str:
+        doms = set(_D.get(bi, ()))
+        rep.check(bool(doms & set(_f64)) and bool(doms & set(_int)), "string-only-after-the-number-attempts", "parse_from_cow@String",
+                  "the untagged resolver can return the text as a string without having tried to read it as a decimal integer and as a float "
+                  "(a short-cut before the number attempts): a number of the short-cut's shape loads as a string", site=pfc.span,
+                  detail={"block": bi, "float attempts": _f64, "integer attempts": _int})
+    rep.floor("constructions of Scalar::String in the untagged resolver", len(_str), 1)
+
     # (a) text identity
     n = 0
     for f in (pfc, pfm):
